@@ -66,7 +66,7 @@ func run(c *core.Ctx, d *desc, record bool) error {
 			if c != nil {
 				c.Count("phase-sender-refused")
 			}
-			return nil
+			continue
 		}
 		ri := 0
 		for mi, m := range d.Msgs[p] {
